@@ -32,7 +32,7 @@ def run(res, tier, seed, replay):
         jobs = []
         for i, (cls, feat, mode, count) in enumerate([("conflict", 255, "sync", 150 * k), ("dense", 255, "sync", 100 * k),
                                                       ("small", 255, "sync", 100 * k), ("greedy", 25 | 128, "sync", 50 * k),
-                                                      ("conflict", 127, "yield", 50 * k)]):
+                                                      ("conflict", 127, "yield", 50 * k), ("conflictc", 255, "sync", 150 * k)]):
             jobs.append((["--class", cls, "--feat", str(feat), "--mode", mode, "--seed", str(seed * 10 + i), "--count", str(count)],
                          f"{cls}/{feat}/{mode}"))
     b = os.path.join(vlib.cargo_build("debug", hooks=True, bins=["solve_cases"]), "solve_cases")
